@@ -17,6 +17,7 @@ from kfv.rules.spmd_rules import conjuncts
 BP = PR.BP
 WA = 'kfac.assignment.WorkAssignment'
 LAYER = PR.LAYER
+LAYER_SHORT = 'layers.base.KFACBaseLayer'
 
 
 def acall(ctx: Ctx, f: Func, e: ast.AST | None, meth: str) -> tuple[str, list[str]] | None:
@@ -554,6 +555,76 @@ def rule_exh_mem(ctx: Ctx) -> None:
                         ok = True
     ctx.check(ok, 'EXH-MEM', f, 'preconditioner sums every key of every layer and a total', 'memory_usage',
               'BaseKFACPreconditioner.memory_usage() does not sum every key of every registered layer plus a total', f.node)
+
+
+def rule_cfg_fwd(ctx: Ctx) -> None:
+    """CFG-FWD: every option of the layer base class reaches every layer the preconditioner builds.
+    For each keyword parameter K of KFACBaseLayer.__init__: (1) the preconditioner constructors put K into the
+    keyword dict handed to register_modules, unconditionally, from their own option of the same name; (2) every
+    layer subclass forwards K to super().__init__; (3) the base constructor stores it in self.K."""
+    p = ctx.prog
+    ctx.rule('CFG-FWD', 'every KFACBaseLayer option is forwarded unconditionally: preconditioner option -> layer kwargs -> subclass -> base field', floor=20)
+    base = p.get_func(f'{LAYER_SHORT}.__init__')
+    opts = [a.arg for a in base.node.args.kwonlyargs]
+    if len(opts) < 5:
+        raise AnalysisIncomplete(f'KFACBaseLayer.__init__ has keyword options {opts}; expected the six communication / dtype options')
+    # (3) base stores
+    stores = {norm(n.targets[0]): norm(n.value) for n in p.nodes(base) if isinstance(n, ast.Assign) and len(n.targets) == 1}
+    for k in opts:
+        ctx.check(stores.get(f'self.{k}') == k, 'CFG-FWD', base, f'self.{k} = {k}', f'base {k}',
+                  f'KFACBaseLayer.__init__ stores {stores.get(f"self.{k}")} in self.{k}; the option {k} would be ignored', base.node)
+    # (2) subclasses forward
+    for c in p.subclasses(LAYER):
+        init = c.methods.get('__init__')
+        if init is None or c.fullname == LAYER:
+            continue
+        sup = [n for n in p.nodes(init) if isinstance(n, ast.Call) and norm(n.func) == 'super().__init__']
+        if len(sup) != 1:
+            raise AnalysisIncomplete(f'{c.name}.__init__: expected one super().__init__ call')
+        kws = {k.arg: norm(k.value) for k in sup[0].keywords}
+        star = any(k.arg is None and norm(k.value) in [a.arg for a in ([init.node.args.kwarg] if init.node.args.kwarg else [])] for k in sup[0].keywords)
+        for k in opts:
+            ok = kws.get(k) == k or (star and k not in kws and k not in init.params)
+            ctx.check(ok, 'CFG-FWD', init, f'{c.name} forwards {k}', f'{c.name} {k}',
+                      f'{c.name}.__init__ passes {k}={kws.get(k)} to the base constructor (star-forwarded: {star}); the option {k} given to the layer would be replaced or dropped', sup[0])
+    # (1) preconditioners
+    for owner in ('preconditioner.KFACPreconditioner.__init__', 'gpt_neox.preconditioner.GPTNeoXKFACPreconditioner.__init__'):
+        f = p.get_func(owner)
+        regs = [c for c in p.calls_in(f) if norm(c.func).endswith('register_modules')]
+        if len(regs) != 1:
+            raise AnalysisIncomplete(f'{owner}: expected one register_modules call')
+        star = [norm(k.value) for k in regs[0].keywords if k.arg is None]
+        direct = {k.arg: (norm(k.value), []) for k in regs[0].keywords if k.arg is not None}
+        entries: dict[str, list[tuple[str, list]]] = {k: [v] for k, v in direct.items()}
+        reg_guards = {(norm(a), pol) for g in flow.guards(p, f, regs[0]) for a, pol in conjuncts(g.test, g.polarity)}
+        for dv in star:
+            for n in p.nodes(f):
+                if isinstance(n, ast.Assign) and len(n.targets) == 1:
+                    gs = sorted({(norm(a), pol) for g in flow.guards(p, f, n) for a, pol in conjuncts(g.test, g.polarity)} - reg_guards)
+                    tg = n.targets[0]
+                    if norm(tg) == dv and isinstance(n.value, ast.Call) and norm(n.value.func) == 'dict':
+                        for k in n.value.keywords:
+                            if k.arg is not None:
+                                entries.setdefault(k.arg, []).append((norm(k.value), gs))
+                    elif norm(tg) == dv and isinstance(n.value, ast.Dict):
+                        for k, v in zip(n.value.keys, n.value.values):
+                            if isinstance(k, ast.Constant):
+                                entries.setdefault(k.value, []).append((norm(v), gs))
+                    elif isinstance(tg, ast.Subscript) and norm(tg.value) == dv and isinstance(tg.slice, ast.Constant):
+                        entries.setdefault(tg.slice.value, []).append((norm(n.value), gs))
+        for k in opts:
+            es = entries.get(k, [])
+            uncond = [e for e in es if not e[1]]
+            ok = len(uncond) >= 1 and all(e[0] == f'self.{k}' for e in es)
+            # or: set in every branch of the compute-method dispatch is not accepted (one more way to forget a branch)
+            ctx.check(ok, 'CFG-FWD', f, f'{owner.split(".")[-2]}: layer option {k} = self.{k}, unconditional', f'{owner.split(".")[-2]} {k}',
+                      f'{owner}: the layers are built with {k} from {es if es else "nothing"}; specified: {k}=self.{k} for every layer type '
+                      f'(otherwise layers of some compute method silently use the default {k})', regs[0])
+            # the option itself comes from the constructor argument
+            src = [norm(n.value) for n in p.nodes(f) if isinstance(n, ast.Assign) and len(n.targets) == 1 and norm(n.targets[0]) == f'self.{k}']
+            if k in f.params:
+                ctx.check(src == [k], 'CFG-FWD', f, f'self.{k} = {k}', f'{owner.split(".")[-2]} self.{k}',
+                          f'{owner}: self.{k} is set from {src}; the constructor argument {k} would not reach the layers', f.node)
 
 
 def rule_excl_hook(ctx: Ctx) -> None:
